@@ -67,6 +67,17 @@ def pool_configs(tier):
         for n in (10, 20, None):
             out.append(((3, k), dict(variant="early", T=3, n=n, k=k,
                                      bound=1 if tier == "quick" else 2)))
+    # other base schedules: eager workers; partners slower than any time-out
+    # the code waits with (each such wait expires K times in a row first)
+    for T in (1, 2):
+        for k in (1, 3):
+            for n in (3 * T + 4, 6 * T + 8, None):
+                out.append(((T, k, "slow"), dict(
+                    variant="early", T=T, n=n, k=k, slow=3 * T + 8,
+                    bound=1 if tier == "quick" else 2)))
+                out.append(((T, k, "eager"), dict(
+                    variant="early", T=T, n=n, k=k, workers_first=True,
+                    bound=1 if tier == "quick" else 2)))
     return out
 
 
